@@ -131,7 +131,7 @@ def runCase (v : Variant) (line : String) : String :=
           | (e, _) :: rest =>
             let w' := w.step v K e
             match e with
-            | .connect _ => go w' rest snaps (s!"c{w'.next - 1}" :: info)
+            | .connect rk => go w' rest snaps (s!"c{(Bmp.regFor rk ⟨.initiating, [], w.reg, w.next⟩).2.2}" :: info)
             | .msg i m =>
               match w.sess[i]? with
               | none => go w' rest snaps ("nc" :: info)
@@ -139,7 +139,13 @@ def runCase (v : Variant) (line : String) : String :=
                 let r := Bmp.step v.bmp (K i) (w.view s) m.toBmp
                 let ups := emit v.rib m r.out
                 let snaps := if ups.any sessionLevel then snapshot w'.rib qs :: snaps else snaps
-                go w' rest snaps (s!"{r.st.phase.idx}:{showOut r.out}" :: info)
+                let o := match ups with
+                  | [.bulk ps] =>
+                    (match ps with
+                     | [] => "b.-.0.0"
+                     | p :: _ => s!"b.{p.mui}.{(ps.filter (fun (q : Rib.Payload) => q.status == Rib.Status.active)).length}.{(ps.filter (fun (q : Rib.Payload) => q.status == Rib.Status.withdrawn)).length}")
+                  | _ => showOut r.out
+                go w' rest snaps (s!"{r.st.phase.idx}:{o}" :: info)
         let (w, snaps, info) := go World.init evs [] []
         " | ".intercalate (snaps ++ [final w.rib qs]) ++ " ## " ++ " ".intercalate info
     | _, _ => "bad-case"
